@@ -484,3 +484,50 @@ def _oracle_re_search3(p, fl, s):
 
 
 UF_ORACLES["re_search3"] = _oracle_re_search3
+
+
+# ---------------------------------------------------------------------------------------------
+# bytes.lstrip(chars): exact.  Literal prefixes are peeled syntactically; a symbolic piece that provably is empty or starts with
+# a character outside `chars` ends the strip; otherwise the unique decomposition s == lead ++ r (lead in [chars]*, r empty or
+# starting outside chars) is introduced with fresh strings.  Without an argument / symbolic argument: uninterpreted suffix (as before).
+
+def _lstrip_bytes(it, s, *a):
+    c = s.concrete()
+    if c is not None and all(x.concrete() is not None for x in a):
+        return lift(c.lstrip(*[x.concrete() for x in a]))
+    chars = a[0].concrete() if a and not isinstance(a[0], SNoneT) else None
+    if chars is None or len(chars) == 0:
+        f = uf("lstrip" + ("_" + repr(chars) if a else ""), _S, _S)
+        r = f(s.t)
+        it.ex.assume(z3.SuffixOf(r, s.t))
+        it.ex.note("lib", "lstrip (uninterpreted; result is a suffix of the input)")
+        return type(s)(r)
+    cs = chars.decode("latin-1") if isinstance(chars, bytes) else chars
+    anyc = z3.Star(z3.AllChar(z3.ReSort(_S)))
+    cls = z3.Union(*[z3.Re(z3.StringVal(ch)) for ch in cs]) if len(cs) > 1 else z3.Re(z3.StringVal(cs))
+    pieces = _flatten_concat(simp(s.t))
+    T = type(s)
+    while pieces:
+        p = pieces[0]
+        if z3.is_string_value(p):
+            lit = str_value_to_pystr(p).lstrip(cs)
+            if lit:
+                return T(simp(_concat_terms([z3.StringVal(lit)] + pieces[1:])))
+            pieces = pieces[1:]
+            continue
+        if not it.branch(SBool(z3.Length(p) > 0)):
+            pieces = pieces[1:]
+            continue
+        if not it.ex.feasible(z3.InRe(p, z3.Concat(cls, anyc))):
+            return T(simp(_concat_terms(pieces)))
+        rest = _concat_terms(pieces)
+        lead = it.fresh("bytes" if T is SBytes else "str", "lstrip_lead")
+        r = it.fresh("bytes" if T is SBytes else "str", "lstrip_rest")
+        it.ex.assume(rest == z3.Concat(lead.t, r.t))
+        it.ex.assume(z3.InRe(lead.t, z3.Star(cls)))
+        it.ex.assume(z3.InRe(r.t, z3.Union(z3.Re(z3.StringVal("")), z3.Concat(z3.Diff(z3.AllChar(z3.ReSort(_S)), cls), anyc))))
+        return r
+    return T(z3.StringVal(""))
+
+
+METHODS[(SBytes, "lstrip")] = _lstrip_bytes
